@@ -166,3 +166,21 @@ func (db *DB) ListenerRemove(Name string) error {
 
 	return nil
 }
+
+func (db *DB) ListenerUpdate(Name, Config string) error {
+	// prepare some arguments to execute for the sqlite db
+	stmt, err := db.db.Prepare("UPDATE TS_Listeners SET Config = ? WHERE Name = ?")
+	if err != nil {
+		return err
+	}
+
+	// execute statement
+	_, err = stmt.Exec(Config, Name)
+	stmt.Close()
+
+	if err != nil {
+		return err
+	}
+
+	return nil
+}
